@@ -20,6 +20,8 @@ Ints == UNION {[1..k -> IntPool] : k \in 0..2} \cup {<<a, 2, 1, 5>> : a \in IntP
         \cup {<<a, 9, 3>> : a \in IntPool} \cup {<<a, 1, 1>> : a \in IntPool} \cup {<<3, 1, a>> : a \in IntPool}
         \* mid-range pairs (size, index, dimensions): each operand harmless alone
         \cup {<<a, 3, b>> : a \in {36, 64, 65, 100, 2000}, b \in {12, 16, 20, 36, 64, 65, 70, 100}}
+        \* a size of one (or two) with every dimension count and index
+        \cup {<<a, b, c>> : a \in {1, 2}, b \in {0, 1, MaxInt}, c \in IntPool}
 Base == [EmptyState EXCEPT !.float = <<1056964608, FOne, FOne>>, !.code = <<IList(<<IInt(1), IBool(TRUE)>>)>>,
                            !.ivec = <<<<1, 2>>>>, !.bvec = <<<<TRUE>>>>, !.name = <<"true", "a">>, !.index = <<[cur |-> 0, dst |-> 1]>>]
 Doubling == {<<IList(<<IIns("CODE.QUOTE"), IList(<<IInt(1)>>), IIns("EXEC.Y"), IList(<<IIns("CODE.DUP"), IIns("CODE.LIST")>>)>>)>>,
